@@ -73,7 +73,7 @@ for nm, tier, what in (("m1_bb", "quick", "1 machine, BlockingBegin with any id 
         bounds=what + "; the machine step returns ANY well-formed action; canaries around the output slots")
 
 # ---------------------------------------------------------------- C06 (state.rs)
-for k, cap, tier in ((1, 120, "quick"), (2, 240, "quick"), (3, 900, "thorough"), (4, 2400, "thorough")):
+for k, cap, tier in ((1, 120, "quick"), (2, 240, "quick"), (3, 1200, "quick"), (4, 2400, "thorough")):
     add("k_sample_state_k%d" % k, MB, "state::verif_kani", ["C06"], tier=tier, cap_s=cap,
         group="c06_k%d" % k if k > 1 else "mb_l0",
         encodes=["State::sample_state", "rand::Rng::gen_range::<f32> (UniformFloat::sample_single)"],
@@ -116,7 +116,8 @@ for fam, tier, cap in (("uniform", "quick", 300), ("normal", "quick", 300), ("lo
                        ("skewnormal", "quick", 300), ("binomial", "quick", 300), ("geometric", "quick", 300),
                        ("pareto", "quick", 300), ("weibull", "quick", 300), ("poisson", "quick", 300),
                        ("gamma", "quick", 300), ("beta", "quick", 300)):
-    add("k_dist_validate_" + fam, MB, "dist::verif_kani", ["C12"], tier=tier, cap_s=cap, mem_gb=12,
+    add("k_dist_validate_" + fam, MB, "dist::verif_kani", ["C12", "C13"] if fam in ("poisson", "binomial", "geometric", "uniform") else ["C12"],
+        tier=tier, cap_s=cap, mem_gb=12,
         group="c12_dist_" + fam, encodes=["Dist::validate (%s)" % fam, "rand_distr constructor"],
         bounds="parameters any f64 bit pattern (trials any u64); start/max any f64")
 
